@@ -24,8 +24,8 @@ PID = "C18"
 T = 10.0            # pruning interval (virtual seconds)
 REG_PORT = 18811
 HOSTS = {"A": ("10.0.0.1", 5001), "B": ("10.0.0.2", 5002)}
-ALIASES = {"a1": ("foo",), "a2": ("Foo", "bar")}
-QUERIES = ("foo", "FOO", "bar", "nope")
+ALIASES = {"a1": ("foo",), "a2": ("Foo", "bar"), "a3": ("baz",)}    # a2 overlaps a1 (case-insensitively), a3 is disjoint
+QUERIES = ("foo", "FOO", "bar", "baz", "nope")
 
 
 class Notes(object):
@@ -182,13 +182,23 @@ def apply_history(hist):
                 if (name, addr) not in m.members:
                     viol.append(("notification:removed-for-a-non-member", "history %r: %r" % (hist, (name, addr))))
                 m.members.discard((name, addr))
+                # a removal is an ACTUAL change of membership only if the server unregistered or its refresh is older than
+                # the pruning interval: a server that is registered under `name`, fresh, and not being unregistered stays
+                t = m.db.get(name, {}).get(addr)
+                if t is not None and t >= S.sim_time.fallback - T:
+                    viol.append(("notification:removed-for-a-live-member", "history %r: %r removed while registered and refreshed %.2f s ago" % (
+                        hist, (name, addr), S.sim_time.fallback - t)))
         if op == "query" and not viol:
             nm = ev[2].upper()
             implied = set(a for (n, a) in m.members if n == nm)
             if implied != set(live):
                 viol.append(("notification-log-disagrees-with-query", "history %r: log implies %r, query answered %r" % (hist, sorted(implied), sorted(live))))
     now = S.sim_time.fallback
-    key = (tuple(sorted((n, tuple(sorted((a, round(now - t, 3)) for a, t in d.items()))) for n, d in sy.srv.services.items())),
+    # an entry older than the pruning interval is stale whatever its exact age (it is dropped at the next query of its name)
+    def age(t):
+        a = round(now - t, 3)
+        return a if a <= T else "stale"
+    key = (tuple(sorted((n, tuple(sorted(((a, age(t)) for a, t in d.items()), key=repr))) for n, d in sy.srv.services.items())),
            tuple(sorted(m.members)))
     return viol, key, sy
 
@@ -203,6 +213,7 @@ def events():
     for q in QUERIES:
         evs.append(("query", "A", q))
     evs.append(("tick", T / 2))
+    evs.append(("tick", 3 * T / 4))      # with T/2: one registration of a server stale while a later one is still fresh
     evs.append(("tick", T + 1))
     return evs
 
@@ -439,7 +450,7 @@ def main(tier, replay_obj=None):
     if replay_obj is not None:
         return replay(replay_obj)
     env.silence_unraisable()
-    depth = 5 if tier == "quick" else 7
+    depth = 6 if tier == "quick" else 8
     res = runner.Result(PID, "model_checking", tier,
                         "A: explicit-state BFS (depth %d) over register/unregister/query/clock-advance histories (2 hosts x 2 ports x 2 alias "
                         "sets, 4 query names, advances of T/2 and T+1) replayed on the real UDPRegistryServer loop and compared step by step "
